@@ -35,9 +35,12 @@ def norm_1_2(ctx, rep):
                             ('ErrorFinder._add_indentation_error', 903, 'IndentationError: ')):
         g = prog.func(ERRORS, q)
         calls = [c for c in walk_own(g.node) if isinstance(c, ast.Call) and is_method_call(c, 'add_issue')]
-        ok = len(calls) == 1 and len(calls[0].args) == 3 and isinstance(calls[0].args[1], ast.Constant) \
-            and calls[0].args[1].value == code and norm(calls[0].args[0]) == g.params()[1] \
-            and _starts_with(calls[0].args[2], prefix)
+        ok = len(calls) == 1
+        if ok:
+            b = dict(zip(['node', 'code', 'message'], calls[0].args))
+            b.update({kw.arg: kw.value for kw in calls[0].keywords if kw.arg})
+            ok = set(b) == {'node', 'code', 'message'} and isinstance(b['code'], ast.Constant) and b['code'].value == code \
+                and norm(b['node']) == g.params()[1] and _starts_with(b['message'], prefix)
         rep.ob('NORM-1', ERRORS, q, 'self.add_issue(<node>, %d, %r + message)' % (code, prefix), ok,
                'helper does not add an issue with code %d and prefix %r for the given node' % (code, prefix))
     # NORM-2
